@@ -48,6 +48,14 @@ class C03(F.Check):
                     k = F.Kernel("c03_%s_%s" % (fam, tag), ct, [(ct, "x")], body, key=key, mode="wrap", family=fam)
                     ks.append(k)
                     names[fam] = k.name
+                if d == 1 and 2147 * n <= F.ct_range(ct)[1]:     # documented policy: only then do the unit-only forms compile
+                    k = F.Kernel("c03_in_%s" % tag, ct, [(ct, "x")], "return %s.in(%s{});" % (q, u2), key=key, mode="wrap", family="in_unit_only")
+                    ks.append(k)
+                    names["in"] = k.name
+                    k = F.Kernel("c03_as_%s" % tag, ct, [(ct, "x")], "return %s.as(%s{}).in(%s{});" % (q, u2, u2), key=key, mode="wrap",
+                                 family="as_unit_only")
+                    ks.append(k)
+                    names["as"] = k.name
                 k = F.Kernel("c03_lossy_%s" % tag, "bool", [(ct, "x")],
                              "return is_conversion_lossy(%s, %s{});" % (q, u2), key=key, mode="wrap", family="lossy")
                 ks.append(k)
@@ -58,6 +66,7 @@ class C03(F.Check):
     def obligations(self, K):
         obs = []
         for ct, n, d, names, tag in self.inst:
+            policy = {nm: names.pop(nm) for nm in ("in", "as") if nm in names}
             if any(K[nm].kernel.dropped for nm in names.values()):
                 in_dom = M.conversion_compiles(ct, n, d)
                 ob = F.Ob("skip:" + tag, [], None, key={"rep": ct, "N": n, "D": d, "model_in_domain": in_dom})
@@ -80,6 +89,16 @@ class C03(F.Check):
                 return pre, post
             obs.append(F.Ob("exact:" + tag, [("x", T.BV(w))], fn, key=key, kernels=list(names.values()),
                             note="not lossy(x) => conv(x)*D == x*N in Z, no trap (UB or unsigned wrap), coerce_as agrees"))
+            for pn, pk in policy.items():
+                if K[pk].kernel.dropped:
+                    self.extra_cov["unit_only_forms_refused_by_policy"] = self.extra_cov.get("unit_only_forms_refused_by_policy", 0) + 1
+                    continue
+
+                def pfn(K, x, pk=pk, names=names):
+                    a, b = K[pk](x), K[names["conv"]](x)
+                    return T.TRUE, T.and_(T.eq(a.ub, b.ub), T.or_(a.ub, T.eq(a.ret, b.ret)))
+                obs.append(F.Ob("policy_form_%s:%s" % (pn, tag), [("x", T.BV(w))], pfn, key=key, kernels=[pk, names["conv"]],
+                                note="where the policy permits the unit-only .%s(unit), it computes exactly what coerce_in computes (same value, same traps)" % pn))
             lo, hi = F.ct_range(ct)
             if n <= hi and d <= hi and n * d <= F.ct_range(F.promoted(ct))[1]:
                 def wfn(K, x, ct=ct, names=names, w=w):
